@@ -163,7 +163,19 @@ def synth_integrals(n_mo, rng, irreps=None):
     return h1, eri.tolist()
 
 
+_MOL_CACHE = {}
+
+
 def build_molecule(spec):
+    """One SecondQuantizedMolecule per distinct molecule (the mapping / ordering / requested-spin variants share it; it is only read)."""
+    import json as _json
+    key = _json.dumps({k: v for k, v in spec.items() if k not in ("spin_req", "asym")}, sort_keys=True, default=str)
+    if key not in _MOL_CACHE:
+        _MOL_CACHE[key] = _build_molecule(spec)
+    return _MOL_CACHE[key]
+
+
+def _build_molecule(spec):
     from tangelo.toolboxes.molecular_computation.molecule import SecondQuantizedMolecule
     if spec["kind"] == "synth":
         Solver = make_solver_class()
@@ -277,7 +289,22 @@ def taper_record(chk, jid, spec, mapping, utd, structure=False):
     case = {"kind": "taper", "mol": spec, "mapping": mapping, "utd": utd, "structure": structure}
     mol = build_molecule(spec)
     nso, ne, spin = mol.n_active_sos, mol.n_active_electrons, mol.active_spin
+    # the sector the CALLER asks for: spin = n_alpha - n_beta may be negative (the molecule itself is built with |spin|)
+    spin = spec.get("spin_req", spin)
     fh = mol.fermionic_hamiltonian
+    asym = spec.get("asym")
+    if asym:
+        # spin-asymmetric terms (they commute with N_alpha and N_beta, so the parity symmetries stay): c * Sz (Zeeman),
+        # c * N, and an alpha-only one-body block (UHF-style: different alpha and beta one-body matrices)
+        f2 = FermionOperator()
+        f2.terms = dict(fh.terms)
+        for p_ in range(nso):
+            f2 += FermionOperator(((p_, 1), (p_, 0)), asym.get("n", 0.) + (0.5 if p_ % 2 == 0 else -0.5) * asym.get("sz", 0.))
+        for i_, row in enumerate(asym.get("alpha", [])):
+            for j_, v_ in enumerate(row):
+                if v_:
+                    f2 += FermionOperator(((2 * i_, 1), (2 * j_, 0)), float(v_))
+        fh = f2
     qh = fermion_to_qubit_mapping(fh, mapping, n_spinorbitals=nso, n_electrons=ne, up_then_down=utd, spin=spin)
     n = nso
     try:
@@ -461,6 +488,20 @@ def synth_specs(chk, rng):
     h1, eri = synth_integrals(3, rng)
     for ne, spin in [(2, 0)] + ([] if quick else [(4, 0), (3, 1), (4, 2), (2, 2)]):
         specs.append({"kind": "synth", "h1": h1, "eri": eri, "ne": ne, "spin": spin, "frozen": None})
+    # negative spins (n_alpha < n_beta) and Hamiltonians that are NOT symmetric under alpha <-> beta exchange: every open-shell
+    # job gets a twin with the opposite sign of the requested spin and a Zeeman / number / alpha-only one-body term, so that the
+    # (n_a, n_b) and (n_b, n_a) sectors are not degenerate and the reference occupation matters
+    twins = []
+    for sp in specs:
+        if sp["spin"] > 0:
+            nmo = len(sp["h1"]) - len(sp.get("frozen") or [])
+            alpha = [[0] * nmo for _ in range(nmo)]
+            alpha[0][0], alpha[0][nmo - 1], alpha[nmo - 1][0] = 1, (1 if nmo > 1 else 1), (1 if nmo > 1 else 1)
+            asym = {"sz": 0.0625, "n": 0.25, "alpha": alpha}
+            twins.append(dict(sp, spin_req=-sp["spin"], asym=asym))
+            if not quick or sp["ne"] % 2:
+                twins.append(dict(sp, spin_req=sp["spin"], asym=asym))
+    specs += twins
     if not quick:
         h1, eri = synth_integrals(3, rng, irreps=[0, 1, 0])
         for ne, spin in [(2, 0), (4, 0), (3, 1)]:
@@ -471,6 +512,14 @@ def synth_specs(chk, rng):
 def real_specs(chk):
     specs = [{"kind": "real", "name": "H2", "xyz": [["H", (0., 0., 0.)], ["H", (0., 0., 0.7414)]], "spin": 0},
              {"kind": "real", "name": "H2-triplet", "xyz": [["H", (0., 0., 0.)], ["H", (0., 0., 0.7414)]], "spin": 2}]
+    # open-shell real molecule with a Zeeman term, both signs of the requested spin
+    h3 = [["H", (0., 0., 0.)], ["H", (0., 0., 0.9)], ["H", (0., 0., 1.9)]]
+    specs.append({"kind": "real", "name": "H3-radical-Zeeman", "xyz": h3, "spin": 1, "spin_req": -1, "asym": {"sz": 0.0625}})
+    if not chk.quick:
+        specs.append({"kind": "real", "name": "H3-radical-Zeeman", "xyz": h3, "spin": 1, "spin_req": 1, "asym": {"sz": 0.0625}})
+        specs.append({"kind": "real", "name": "H3-radical", "xyz": h3, "spin": 1, "spin_req": -1})
+        specs.append({"kind": "real", "name": "H4+-Zeeman", "q": 1, "spin": 1, "spin_req": -1, "asym": {"sz": 0.0625, "n": 0.25},
+                      "xyz": [["H", (0.7071, 0., 0.)], ["H", (0., 0.7071, -0.1)], ["H", (-1.0071, 0., 0.)], ["H", (0., -1.0071, 0.2)]]})
     if not chk.quick:
         specs.append({"kind": "real", "name": "H4", "spin": 0,
                       "xyz": [["H", (0.7071, 0., 0.)], ["H", (0., 0.7071, -0.1)], ["H", (-1.0071, 0., 0.)], ["H", (0., -1.0071, 0.2)]]})
@@ -535,7 +584,11 @@ def run_taper(chk, rng):
     if not jobs:
         chk.part("taper", jobs=0, note="every tapering call raised on this tree (see KNOWN-FINDING)")
         return
-    verdicts, results = tlc.judge("C14Taper", jobs, WD + "/taper", {"M": M}, max_parallel=6 if chk.quick else 12, timeout=7200, heap="6g")
+    # spread the expensive (large register) records evenly over the JVMs: judge() cuts the list into contiguous chunks
+    par = 6 if chk.quick else 12
+    heavy_first = sorted(jobs, key=lambda j: -(j["n"] * 1000 + len(j["H"])))
+    balanced = [j for c in range(par) for j in heavy_first[c::par]]
+    verdicts, results = tlc.judge("C14Taper", balanced, WD + "/taper", {"M": M}, max_parallel=par, timeout=7200, heap="6g")
     # negative controls are corrupted copies of records that CONFORM (second batch)
     ctl = taper_negative_controls([j for j in jobs if (verdicts[j["id"]] & TAPER_FAIL) == 0])
     expect = {c["id"]: c.pop("_expect") for c in ctl}
